@@ -157,6 +157,7 @@ type FuncCtx struct {
 	ownRecs       map[string]string
 	pureInline    bool
 	seeded        map[string]bool
+	fnKey         string
 }
 
 // seed makes an integer term available as an instantiation point for the
@@ -276,6 +277,10 @@ func (fx *FuncCtx) heapGet(st *State, name, sortName string) string {
 	if _, ok := fx.compSort[name]; !ok {
 		fx.compSort[name] = sortName
 	}
+	if fx.eng.isImmutableFor(name, fx.fnKey) {
+		// written only by its initialisers: a constant here, whatever unknown code ran
+		return fx.compInit(name, 0)
+	}
 	if t, ok := st.Heap[name]; ok {
 		return t
 	}
@@ -313,6 +318,10 @@ func (fx *FuncCtx) baseLookup(b *heapBase, name string) string {
 func (fx *FuncCtx) heapSet(st *State, name, sortName, term string) {
 	if _, ok := fx.compSort[name]; !ok {
 		fx.compSort[name] = sortName
+	}
+	if fx.eng.isImmutableFor(name, fx.fnKey) {
+		fx.clauseErrs = append(fx.clauseErrs, "store to a field declared immutable: "+name)
+		return
 	}
 	fx.logStore(name, storeIndex(term))
 	st.Heap[name] = fx.define("h", sortName, term)
